@@ -168,6 +168,29 @@ fn main_check(ctx: &Ctx) -> Outcome {
         out.push_part(json!({"system":"WinconBytes value sweeps (all 256 indices / component values, all plain codes 0..=110 inside the statement)","sequences":sweep.len(),"runs":n.load(Ordering::Relaxed)}));
     }
 
+    // (D) codes the statement leaves out (5, 6, 22-29, 59): alone and combined with listed groups in one sequence, from
+    //     three start styles; the extractor may ignore such a code or do what a conforming terminal does - nothing else
+    //     (in particular it must not drop its neighbours or touch another attribute)
+    {
+        let cases = unlisted_code_cases();
+        cases.par_iter().for_each(|(with, without)| {
+            if let Err(m) = guard(|| unlisted_case_runs(with, without)).and_then(|r| r) {
+                let mut v = viol.lock().unwrap();
+                if v.len() < 300 {
+                    v.push(Finding {
+                        system: "WinconBytes::extract_next/left-out-codes".into(),
+                        clause: wincon_clause_of(&m),
+                        case: vec![show(with)],
+                        message: m,
+                        replay: json!({"kind":"left-out","with": hex(with), "without": hex(without)}),
+                    });
+                }
+            }
+        });
+        evals.fetch_add(cases.len() as u64, Ordering::Relaxed);
+        out.push_part(json!({"system":"WinconBytes sequences containing a code the statement leaves out (5, 6, 22-29, 59)","sequences":cases.len()}));
+    }
+
     let mut v = viol.into_inner().unwrap();
     v.sort_by_key(|f| (f.case.iter().map(|c| c.len()).sum::<usize>(), f.key()));
     // keep the shortest few per clause so that the list is stable and readable
@@ -197,6 +220,7 @@ fn replay(v: &serde_json::Value) -> Result<(), String> {
             let trace: Vec<usize> = v["trace"].as_array().unwrap().iter().map(|x| x.as_u64().unwrap() as usize).collect();
             bfs::replay(&sys, v["init"].as_u64().unwrap_or(0) as usize, &trace).map(|_| ()).map_err(|(i, m)| format!("step {i}: {m}"))
         }
+        "left-out" => unlisted_case_runs(&unhex(v["with"].as_str().unwrap_or("")), &unhex(v["without"].as_str().unwrap_or(""))),
         "seq-from-style" => {
             let mut imp = WinconBytes::new();
             let mut model = RunModel::default();
